@@ -39,9 +39,20 @@ theorem endpoint_unique {node : Node} (hs : (node.map (·.id)).Pairwise (· < ·
 
 /-! ## the last-authorised cache is transparent under a fixed ACL state -/
 
-/-- what `Inv.cache` says about the cache -/
+/-- what is known about the cache: its content was authorised (on this node), or — after the node
+has been replaced — names an endpoint id that no longer exists (then it can never hit) -/
 def CacheOk (ctx : Ctx) (op : Operation) (node : Node) (la : Option (Nat × Nat × Nat)) : Prop :=
-  ∀ t, la = some t → Authorised ctx op node t
+  ∀ t, la = some t → Authorised ctx op node t ∨ ∀ e ∈ node, e.id ≠ t.1
+
+theorem yieldOk_authorised {ctx : Ctx} {op : Operation} {node : Node} {path : Path}
+    {la : Option (Nat × Nat × Nat)} {ep cl lf : Nat} (hla : CacheOk ctx op node la)
+    (h : YieldOk ctx op node path la ep cl lf) : Authorised ctx op node (ep, cl, lf) := by
+  obtain ⟨e, he, hi, c, hc, hci, l, hl, hli, _, _, _, acc, fil, chk⟩ := h
+  rcases chk with h | h
+  · rcases hla _ h with ha | ha
+    · exact ha
+    · exact absurd hi (ha e he)
+  · exact ⟨e, he, hi, c, hc, hci, l, hl, hli, acc, fil, h⟩
 
 theorem leafCheck_cache {ctx : Ctx} {op : Operation} {node : Node} {e : Endpoint} {c : Cluster}
     {la : Option (Nat × Nat × Nat)} (hn : nodeWF node = true) (he : e ∈ node) (hc : c ∈ e.clusters)
@@ -51,7 +62,9 @@ theorem leafCheck_cache {ctx : Ctx} {op : Operation} {node : Node} {e : Endpoint
   by_cases hf : ctx.filter e.id c.id lf = true
   · simp only [hf, if_true]
     by_cases hl : la = some (e.id, c.id, lf)
-    · obtain ⟨e', he', hi, c', hc', hci, _, _, _, _, _, chk⟩ := hla _ hl
+    · rcases hla _ hl with hauth | habs
+      case inr => exact absurd rfl (habs e he)
+      obtain ⟨e', he', hi, c', hc', hci, _, _, _, _, _, chk⟩ := hauth
       simp only at hi hci chk
       have : e' = e := endpoint_unique (nodeWF_sorted hn) he' he hi
       subst this
@@ -307,7 +320,7 @@ theorem endpointLoop_wild {ctx : Ctx} {op : Operation} {path : Path}
     (∃ j e post ci' li' ep cl lf arr,
         endpointLoop ctx op path la es ci li =
           .yield ep cl lf arr { endpointId := some e.id, clusterIndex := ci', leafIndex := li' } ∧
-        es.drop j = e :: post ∧ CurPre ctx path (e :: post) ci' li' ∧
+        es.drop j = e :: post ∧ CurPre ctx path (e :: post) ci' li' ∧ epOk ctx path e = true ∧
         wEndpointsFrom ctx op path es ci li =
           Out.item ep cl lf true arr :: wEndpointsFrom ctx op path (e :: post) ci' li') := by
   induction es generalizing ci li with
@@ -321,15 +334,15 @@ theorem endpointLoop_wild {ctx : Ctx} {op : Operation} {path : Path}
         (∃ j e post ci' li' ep cl lf arr,
           endpointLoop ctx op path la (x :: xs) ci li =
             .yield ep cl lf arr { endpointId := some e.id, clusterIndex := ci', leafIndex := li' } ∧
-          (x :: xs).drop j = e :: post ∧ CurPre ctx path (e :: post) ci' li' ∧
+          (x :: xs).drop j = e :: post ∧ CurPre ctx path (e :: post) ci' li' ∧ epOk ctx path e = true ∧
           wEndpointsFrom ctx op path (x :: xs) ci li =
             Out.item ep cl lf true arr :: wEndpointsFrom ctx op path (e :: post) ci' li') := by
       intro hstep hrem
       rw [← wEndpointsFrom_zero] at hrem
-      rcases ih' with ⟨h1, h2⟩ | ⟨j, e, post, ci', li', ep, cl, lf, arr, h1, h2, h3, h4⟩
+      rcases ih' with ⟨h1, h2⟩ | ⟨j, e, post, ci', li', ep, cl, lf, arr, h1, h2, h3, h3', h4⟩
       · left; exact ⟨hstep.trans h1, hrem.trans h2⟩
       · right
-        exact ⟨j + 1, e, post, ci', li', ep, cl, lf, arr, hstep.trans h1, by simpa using h2, h3, hrem.trans h4⟩
+        exact ⟨j + 1, e, post, ci', li', ep, cl, lf, arr, hstep.trans h1, by simpa using h2, h3, h3', hrem.trans h4⟩
     by_cases hm : epOk ctx path x = true
     · have hm' : (matchesOpt path.endpoint x.id && isEndpointAccessible ctx.fabrics ctx.accessor x.id) = true := hm
       have hms : (matchesOpt path.endpoint x.id && reachable ctx x) = true := by rw [epOk_spec hwf]; exact hm
@@ -355,7 +368,7 @@ theorem endpointLoop_wild {ctx : Ctx} {op : Operation} {path : Path}
           · injection hgo with hgo; exact hgo.symm
           · cases hgo
         refine ⟨0, x, xs, ci + j, li', x.id, c.id, leaf.id, arrayFlag op c leaf, ?_, rfl,
-          Or.inr ⟨x, xs, rfl, hm, Or.inr ⟨c, post, hd', hmc⟩⟩, ?_⟩
+          Or.inr ⟨x, xs, rfl, hm, Or.inr ⟨c, post, hd', hmc⟩⟩, hm, ?_⟩
         · rw [endpointLoop, matchesOpt_iff, if_pos hm']; simp [hf, arrayFlag]
         · simp only [wEndpointsFrom, hms, if_true, hrem, List.cons_append, hd', ho]
     · have hms : ¬ (matchesOpt path.endpoint x.id && reachable ctx x) = true := by rw [epOk_spec hwf]; exact hm
@@ -482,7 +495,7 @@ theorem wildcard_step {ctx : Ctx} {op : Operation} {node : Node} {p : Path} {la 
   rcases endpointLoop_wild (ctx := ctx) (op := op) (path := p) (la := la) hsw.1 hwf es ci li
       (fun e he c hc l hl => wItem_iff hn hwf hcan hla (hmem e he) hc hl)
       (fun e he c hc l hl => arrayFlag_spec hn (hmem e he) hc hl) hpre with
-    h | ⟨j, e, post, ci', li', ep, cl, lf, arr, h1, h2, h3, h4⟩
+    h | ⟨j, e, post, ci', li', ep, cl, lf, arr, h1, h2, h3, _, h4⟩
   · exact Or.inl h
   · right
     refine ⟨ep, cl, lf, arr, _, _, h1, h4, Or.inr ⟨hsw, pre ++ es.take j, e, post, ci', li', ?_, rfl, h3, rfl⟩⟩
@@ -598,11 +611,11 @@ theorem nextFrom_spec {ctx : Ctx} {op : Operation} {node : Node}
       ⟨h1, h2⟩ | ⟨ep, cl, lf, arr, cur', rem', h1, h2, h3, h4⟩ | ⟨s, h1, h2⟩
     · left; simp [h1, h2, expected]
     · right
-      have hauth := ((nextForPath_yield h1).authorised hla).1
+      have hauth := yieldOk_authorised hla (nextForPath_yield h1)
       refine ⟨_, rem' ++ expected ctx op node [],
         { items := [], item := if (!isWildcard p) = true then none else some p, cur := cur',
           lastAuthorized := some (ep, cl, lf) }, by rw [h2]; rfl, by simp only [h1], ?_, ?_⟩
-      · intro t ht; simp only [Option.some.injEq] at ht; subst ht; exact hauth
+      · intro t ht; simp only [Option.some.injEq] at ht; subst ht; exact Or.inl hauth
       · cases hw : isWildcard p with
         | true => exact Or.inr ⟨p, rem', by simp, hw, h3 hw, rfl⟩
         | false => exact Or.inl ⟨by simp, by rw [h4 hw]; rfl⟩
@@ -617,11 +630,11 @@ theorem nextFrom_spec {ctx : Ctx} {op : Operation} {node : Node}
       rw [h1, List.nil_append, expected_cons]
       exact ih q {} (expectedItem ctx op node q) (Or.inl ⟨rfl, rfl⟩)
     · right
-      have hauth := ((nextForPath_yield h1).authorised hla).1
+      have hauth := yieldOk_authorised hla (nextForPath_yield h1)
       refine ⟨_, rem' ++ expected ctx op node (q :: rest),
         { items := q :: rest, item := if (!isWildcard p) = true then none else some p, cur := cur',
           lastAuthorized := some (ep, cl, lf) }, by rw [h2]; rfl, by simp only [h1], ?_, ?_⟩
-      · intro t ht; simp only [Option.some.injEq] at ht; subst ht; exact hauth
+      · intro t ht; simp only [Option.some.injEq] at ht; subst ht; exact Or.inl hauth
       · cases hw : isWildcard p with
         | true => exact Or.inr ⟨p, rem', by simp, hw, h3 hw, rfl⟩
         | false => exact Or.inl ⟨by simp, by rw [h4 hw]; rfl⟩
